@@ -12,7 +12,15 @@ import (
 // moved segment carried seq == nextRecv at that moment, duplicates are dropped
 // and nothing beyond a gap is delivered - so the cumulative ack (nextRecv) never
 // runs ahead of what was received in order.
-func vH_C13_inputData_packet() {
+func vH_C13_inputData_packet() { vInputDataStep(false) }
+
+// the same step when the incoming segment is a SESSION segment (a duplicate
+// open-session response at a client, a duplicate open-session request at a
+// server): it takes part in the same sequence space and must not move the
+// cumulative ack unless it is the expected one
+func vH_C13_inputData_session() { vInputDataStep(true) }
+
+func vInputDataStep(sessionSeg bool) {
 	isClient := vNondetBool("isClient")
 	s := vNewSession(7, isClient, common.PacketTransport)
 	r0 := vNondetU32("nextRecv")
@@ -31,6 +39,15 @@ func vH_C13_inputData_packet() {
 		}
 	}
 	seg := vDataSeg("in", !isClient, 7, 2)
+	if sessionSeg {
+		p := uint8(openSessionRequest)
+		if isClient {
+			p = uint8(openSessionResponse)
+		}
+		seg = &segment{metadata: &sessionStruct{baseStruct: baseStruct{protocol: p}, sessionID: 7, seq: vNondetU32("in.seq")}, transport: common.PacketTransport}
+		s.forwardStateTo(sessionAttached)
+		s.forwardStateTo(sessionEstablished) // a duplicate: the handshake already completed
+	}
 	q := vSeq(seg)
 	vAssume(q < r0+8 || q < r0) // near the window (far-future segments are only dropped)
 	err := s.inputData(seg)
